@@ -642,6 +642,8 @@ impl Monitor for C05 {
             ("single", tier.pick(1000000, 100000000)),
             ("corpus", tier.pick(400_000, 8_000_000)),
             ("big", tier.pick(30_000, 1_500_000)),
+            ("bytesweep", tier.pick(5_000, 300_000)),
+            ("wordsweep", tier.pick(64, 4_000)),
         ]
     }
 
@@ -658,6 +660,20 @@ impl Monitor for C05 {
                 }
                 None => rep.selfcheck_fail("corpus file missing".into()),
             },
+            "wordsweep" => {
+                gen::wordsweep(rng, |c| {
+                    self.pair(rep, c, Family::Sliced, Family::LaxSliced);
+                    self.pair(rep, c, Family::Headers, Family::LaxHeaders);
+                });
+                rep.count("wordsweeps");
+            }
+            "bytesweep" => {
+                for c in gen::bytesweep(rng) {
+                    rep.count("bytesweep_cases");
+                    self.pair(rep, &c, Family::Sliced, Family::LaxSliced);
+                    self.pair(rep, &c, Family::Headers, Family::LaxHeaders);
+                }
+            }
             "clean" | "hostile" | "big" => {
                 let o = if engine == "clean" || (engine == "big" && rng.bool()) { GenOpts::clean() } else { GenOpts::hostile() };
                 gen::set_big(engine == "big");
